@@ -415,6 +415,12 @@ impl Directive {
                                 point,
                             ),
                         };
+                        // a flag may be defined again; a name that stands for something else may not become a flag
+                        if context.common_context.exist(name)
+                            && context.common_context.get_define(name).is_none()
+                        {
+                            bail!("Identifier {} is used twice, {}", name, point);
+                        }
                         context.common_context.set_define(name.clone(), value);
                     } else {
                         bail!("wrong format for .define, expected: {} in {}", opts, point,);
